@@ -34,6 +34,13 @@ def user_prim(name):
     return c03.user_prim(name)
 
 
+def _swallow(f):
+    try:
+        f()
+    except BaseException:  # pylint: disable=broad-except
+        pass
+
+
 class Run(object):
     """one conversation with a fault injected; `fault` = (kind, turn index, offset)"""
 
@@ -120,8 +127,11 @@ class Run(object):
                 r.settle()
             if r.sock is not None:
                 r.sock.fail_send = False
-            if kind == 'stop' and i == ti:
-                return self.stop_test()
+            if kind in ('stop', 'assoc-kill') and i == ti:
+                try:
+                    return self.stop_test() if kind == 'stop' else self.assoc_kill_test()
+                finally:
+                    s2.SELECT_SLEEP = 0.0
             if kind == 'silence' and i == ti:
                 if r.p.state not in (2, 13):
                     return 'n/a'           # ARTIM is not armed here: silence is outside the property
@@ -146,6 +156,7 @@ class Run(object):
         state = p.state
         p._budget = 10 ** 15                  # the loop condition is now governed by the termination flag alone
         p._is_killed.clear()
+        s2.SELECT_SLEEP = 0.002
         box = {}
 
         def body():
@@ -182,6 +193,39 @@ class Run(object):
             return 'the loop died while being stopped in Sta%d: %r' % (state, box['exc'])
         if 'exc' in box:
             return 'a pass blocked while a stop was pending in Sta%d: %s' % (state, box['exc'])
+        return None
+
+    def assoc_kill_test(self):
+        """Association.kill() - what the library itself calls to stop a provider - at this quiescent point, with run()
+        in a real thread: it must return within a bounded time whatever the protocol state"""
+        import threading
+        from pynetdicom2 import asceprovider as ap
+        p = self.r.p
+        if p.crashed is not None or self.r.tr.blocked:
+            return 'n/a'
+        state = p.state
+        p._budget = 10 ** 15
+        p._is_killed.clear()
+        s2.SELECT_SLEEP = 0.002
+        th = threading.Thread(target=lambda: _swallow(p.run), daemon=True)
+        th.start()
+        a = ap.Association.__new__(ap.Association)
+        a.dul = p
+        a.association_established = True
+        done = threading.Event()
+
+        def killer():
+            ap.Association.kill(a)
+            done.set()
+        threading.Thread(target=killer, daemon=True).start()
+        if not done.wait(20):
+            p._killed = True
+            p._is_killed.set()
+            return 'Association.kill() did not return within 20 s in Sta%d: a request to stop did not complete' % state
+        th.join(3)
+        if th.is_alive():
+            p._killed = True
+            return 'Association.kill() returned in Sta%d but the provider loop is still running' % state
         return None
 
     def verdict(self):
@@ -235,6 +279,8 @@ def faults_for(conv, tier):
         out.append(('silence', i, 0))
         out.append(('fail-send', i, 0))
         out.append(('stop', i, 0))
+        if i == 1:
+            out.append(('assoc-kill', i, 0))
     out.append(('none', -1, 0))
     return out
 
